@@ -138,7 +138,7 @@ def showAll (st : State) : String :=
   joinWith ";;" ((List.range 4).map (fun i => s!"r{i}=" ++ showVal (reg st i)))
 
 def showErr (e : Err) : String :=
-  if e = unmodelled then "unmodelled" else "ERR:" ++ e.toString
+  if e = unmodelled then "unmodelled" else if e = ub then "UB" else "ERR:" ++ e.toString
 
 def stepLine (st : State) (line : String) : State × String :=
   match parseOp line with
